@@ -182,6 +182,7 @@ def avg_pb_unit(res):
                 return dict(replay="c01_avg", args=dict(ports=ports, uops=uops, as_dict=as_dict), key="avg-uniform")
 
             res.add_paths(paths, post, exc_ok=exc_ok, concretize=conc, kind=f"pb{shape}{'d' if as_dict else ''}", label="Pb")
+            res.add_diff(paths, "d_c01_avg", lambda m, p: conc(m, p)["args"], limit=12)
     return res
 
 
